@@ -364,6 +364,8 @@ def _expand_long(spec: list[Any]) -> str:
         return "S"
     if kind == "pend-quiet-final":
         return "P" + "T" * spec[1] + spec[2]
+    if kind == "pend-gaps":  # several pendings, each followed by a silence shorter than the limit; the silences add up to more
+        return "P" + ("T" * spec[1] + "P") * spec[2] + "T" * spec[1] + spec[3]
     raise AssertionError(kind)
 
 
@@ -439,6 +441,10 @@ def run_shard(spec: dict[str, Any], seed: int) -> Collector:
                 for k in sorted({1, 39, 40, 41, lim - 1, lim, lim + 1, 45, 59, 60}):
                     for fin in "FN":
                         body({"script": "", "long": ["pend-quiet-final", k, fin], "client_retry": mr, "client_timeout": ct, "cfg_retry": None, "cfg_timeout": cft})
+                # every single silence stays below the limit, their sum does not: each pending starts a new wait
+                for gap, cnt in ((lim // 2 + 1, 1), (lim // 3 + 1, 2), (lim - 1, 3), (7, 9)):
+                    for fin in "FN":
+                        body({"script": "", "long": ["pend-gaps", gap, cnt, fin], "client_retry": mr, "client_timeout": ct, "cfg_retry": None, "cfg_timeout": cft})
         return col
     raise AssertionError(w)
 
